@@ -129,6 +129,29 @@ func runC03(c *Ctx, w *World, r *Report) {
 	}
 	r.Units["contract_functions"] = len(hl)
 
+	// ---- R-CONTRACT-LEVEL: the level PathToIndex's contract demands is the path's own level, the one the Loose sibling reports in `has`
+	{
+		r.Rule("R-CONTRACT-LEVEL", "where PathToIndex's contract demands that the bitmap stores a level (bitmapMustHaveLevel(bitmapSize, l)), l is PathLen(path) itself: the same bit PathToIndexLoose reports as `has` = (bitmapSize >> PathLen(path)) & 1. Any other level makes the debug build reject stored nodes")
+		bad := ""
+		ncall := 0
+		target := fns["bmtree.bitmapMustHaveLevel"]
+		plen := fns["bmtree.PathLen"]
+		for _, f := range hl {
+			eachInstr(f, func(ins ssa.Instruction) {
+				call, ok := ins.(*ssa.Call)
+				if !ok || call.Common().StaticCallee() != target || len(call.Common().Args) < 2 {
+					return
+				}
+				ncall++
+				lv, ok := stripConv(call.Common().Args[1]).(*ssa.Call)
+				if !ok || lv.Common().StaticCallee() != plen {
+					bad = fmt.Sprintf("bitmapMustHaveLevel is asked about level %s at %s, not about PathLen(path)", fmtVal(w, call.Common().Args[1]), w.InstrPos(ins))
+				}
+			})
+		}
+		r.Check(bad == "", "R-CONTRACT-LEVEL", "bmtree.PathToIndex", w.Pos(fns["bmtree.PathToIndex"].Pos()), bad, fmt.Sprintf("%d level contracts, each about PathLen(path)", ncall))
+	}
+
 	// ---- R-CONTRACT-TYPES (meaningful where the calls exist with their arguments: both builds type-check them)
 	ncmp := 0
 	for _, f := range hl {
@@ -221,81 +244,7 @@ func runC03(c *Ctx, w *World, r *Report) {
 		})
 		r.Check(badP == "", "R-CONTRACT-RANGE", "bmtree.pathCheck|width", w.Pos(pc.Pos()), badP, "width mask covers only bits 30,31 of each half")
 	}
-	// ---- R-CONTRACT-RANGE, general form: must.Be.True(x < K) / (x <= K) with x a quantity whose valid
-	// maximum the property fixes and K a constant or a bitmap table entry with a constant index
-	{
-		validMax := map[string]int64{"PathBits": 1<<30 - 1, "PathHeight": 30, "Height": 30, "PathLen": 30, "PathMask": 1<<30 - 1}
-		foldK := func(v ssa.Value) (int64, bool) {
-			if k, ok := constInt64(stripConv(v)); ok {
-				return k, true
-			}
-			if tab, idx, ok := asElemLoad(v); ok {
-				if g, ok := tab.(*ssa.Global); ok && g.Pkg.Pkg.Name() == "bitmap" {
-					if c, ok := constInt64(stripConv(idx)); ok && c >= 0 && c < 63 {
-						switch g.Name() {
-						case "Bit":
-							return int64(1) << uint(c), true
-						case "Mask":
-							return int64(1)<<uint(c) - 1, true
-						case "MaskUpto":
-							return int64(1)<<uint(c+1) - 1, true
-						}
-					}
-				}
-			}
-			return 0, false
-		}
-		for _, f := range hl {
-			seen := map[string]int{}
-			eachInstr(f, func(ins ssa.Instruction) {
-				call, ok := ins.(*ssa.Call)
-				if !ok {
-					return
-				}
-				if name, ok := isMustCall(call); !ok || name != "True" || len(call.Common().Args) < 2 {
-					return
-				}
-				bo, ok := call.Common().Args[1].(*ssa.BinOp)
-				if !ok {
-					return
-				}
-				op, isCmp := tokOp(bo.Op)
-				if !isCmp {
-					return
-				}
-				x, kv := bo.X, bo.Y
-				if _, ok := foldK(kv); !ok {
-					x, kv, op = bo.Y, bo.X, flipOp(op)
-				}
-				K, ok := foldK(kv)
-				if !ok {
-					return
-				}
-				xc, ok := stripConv(x).(*ssa.Call)
-				if !ok || xc.Common().StaticCallee() == nil {
-					return
-				}
-				vm, ok := validMax[xc.Common().StaticCallee().Name()]
-				if !ok {
-					return
-				}
-				seen[xc.Common().StaticCallee().Name()]++
-				key := fmt.Sprintf("%s|True(%s)#%d", w.FuncName(f), xc.Common().StaticCallee().Name(), seen[xc.Common().StaticCallee().Name()])
-				bad := ""
-				switch op {
-				case opLT:
-					if K <= vm {
-						bad = fmt.Sprintf("contract `%s(...) < %d` rejects the valid value %d", xc.Common().StaticCallee().Name(), K, vm)
-					}
-				case opLE:
-					if K < vm {
-						bad = fmt.Sprintf("contract `%s(...) <= %d` rejects the valid value %d", xc.Common().StaticCallee().Name(), K, vm)
-					}
-				}
-				r.Check(bad == "", "R-CONTRACT-RANGE", key, w.InstrPos(call), bad+": a -tags debug build panics on valid input (trees of height 30 / 30-bit paths) while the release build returns normally", fmt.Sprintf("bound %d admits the valid maximum %d", K, vm))
-			})
-		}
-	}
+	reportContractRangeGeneral(w, r, hl)
 	// ---- R-NARROWSHL: a value explicitly narrowed to <= 32 bits must not be shifted left by a variable amount
 	r.Rule("R-NARROWSHL", "in the index arithmetic (PathToIndex, PathToIndexLoose, shiftMulti, IndexToPath) a value that was explicitly narrowed to a type of at most 32 bits is never the left operand of a left shift by a non-constant amount: bitmap sizes have up to 31 bits and shifts reach 30, so such a shift drops high bits for tall trees (heights the suite never reaches)")
 	for _, n := range []string{"bmtree.PathToIndex", "bmtree.PathToIndexLoose", "bmtree.shiftMulti", "bmtree.IndexToPath"} {
@@ -508,4 +457,81 @@ func contractFuncsOf(w *World, roots ...*ssa.Function) []*ssa.Function {
 	}
 	sort.Slice(out, func(i, j int) bool { return w.FuncName(out[i]) < w.FuncName(out[j]) })
 	return out
+}
+
+// reportContractRangeGeneral: must.Be.True(x < K) / (x <= K) with x a quantity whose valid maximum the properties fix
+// (heights and lengths up to 30, 30-bit paths) and K a constant or a bitmap table entry with a constant index.
+func reportContractRangeGeneral(w *World, r *Report, hl []*ssa.Function) {
+	r.Rule("R-CONTRACT-RANGE", "contract constants admit every valid input of the property: the height bound accepts height 30, the path-width mask rejects only bits 30/31 of either half")
+	validMax := map[string]int64{"PathBits": 1<<30 - 1, "PathHeight": 30, "Height": 30, "PathLen": 30, "PathMask": 1<<30 - 1}
+	foldK := func(v ssa.Value) (int64, bool) {
+		if k, ok := constInt64(stripConv(v)); ok {
+			return k, true
+		}
+		if tab, idx, ok := asElemLoad(v); ok {
+			if g, ok := tab.(*ssa.Global); ok && g.Pkg.Pkg.Name() == "bitmap" {
+				if c, ok := constInt64(stripConv(idx)); ok && c >= 0 && c < 63 {
+					switch g.Name() {
+					case "Bit":
+						return int64(1) << uint(c), true
+					case "Mask":
+						return int64(1)<<uint(c) - 1, true
+					case "MaskUpto":
+						return int64(1)<<uint(c+1) - 1, true
+					}
+				}
+			}
+		}
+		return 0, false
+	}
+	for _, f := range hl {
+		seen := map[string]int{}
+		eachInstr(f, func(ins ssa.Instruction) {
+			call, ok := ins.(*ssa.Call)
+			if !ok {
+				return
+			}
+			if name, ok := isMustCall(call); !ok || name != "True" || len(call.Common().Args) < 2 {
+				return
+			}
+			bo, ok := call.Common().Args[1].(*ssa.BinOp)
+			if !ok {
+				return
+			}
+			op, isCmp := tokOp(bo.Op)
+			if !isCmp {
+				return
+			}
+			x, kv := bo.X, bo.Y
+			if _, ok := foldK(kv); !ok {
+				x, kv, op = bo.Y, bo.X, flipOp(op)
+			}
+			K, ok := foldK(kv)
+			if !ok {
+				return
+			}
+			xc, ok := stripConv(x).(*ssa.Call)
+			if !ok || xc.Common().StaticCallee() == nil {
+				return
+			}
+			vm, ok := validMax[xc.Common().StaticCallee().Name()]
+			if !ok {
+				return
+			}
+			seen[xc.Common().StaticCallee().Name()]++
+			key := fmt.Sprintf("%s|True(%s)#%d", w.FuncName(f), xc.Common().StaticCallee().Name(), seen[xc.Common().StaticCallee().Name()])
+			bad := ""
+			switch op {
+			case opLT:
+				if K <= vm {
+					bad = fmt.Sprintf("contract `%s(...) < %d` rejects the valid value %d", xc.Common().StaticCallee().Name(), K, vm)
+				}
+			case opLE:
+				if K < vm {
+					bad = fmt.Sprintf("contract `%s(...) <= %d` rejects the valid value %d", xc.Common().StaticCallee().Name(), K, vm)
+				}
+			}
+			r.Check(bad == "", "R-CONTRACT-RANGE", key, w.InstrPos(call), bad+": a -tags debug build panics on valid input (trees of height 30 / 30-bit paths) while the release build returns normally", fmt.Sprintf("bound %d admits the valid maximum %d", K, vm))
+		})
+	}
 }
